@@ -160,6 +160,24 @@ def run(ctx):
     ctx.expect(len(val_ifs) >= 2, "R19.2", "get_cache_misses[rejected entry is re-fetched]",
                "an entry rejected by validation is both dropped and scheduled for download", gm.loc())
 
+    # ---- R19.4 every directive of a request is honoured, and a failure is attributed to its own URI
+    from .fc import loop_locals_used_after
+    for q in (FCM + ".parse_directive", FCM + ".parse_directives"):
+        fpd = p.get_function(q)
+        late = [(n, lp, st) for n, lp, st in loop_locals_used_after(fpd.node)]
+        ctx.expect(not late, "R19.4", f"{fpd.name}[every element handled inside the loop]",
+                   "no statement after a loop consumes a per-element local of that loop" if not late else
+                   "; ".join(f"`{n}` is bound per element of `{ast.unparse(lp.iter)}` but consumed by `{ast.unparse(st)[:60]}` after the "
+                             "loop: only the last element takes effect (a `validate=` directive that is not last is dropped and a "
+                             "rejected entry is served)" for n, lp, st in late), fpd.loc(late[0][2]) if late else fpd.loc())
+    bad_maps = [c for c in calls(dl.node) if isinstance(c.func, ast.Attribute) and c.func.attr in (
+        "imap_unordered", "map_async", "apply_async", "starmap_async")]
+    ctx.expect(not bad_maps, "R19.4", "_download_from_resources[results in request order]",
+               "success flags come back in the order of the misses they are zipped with, so a failed download is attributed to its own "
+               "URI (an unordered map would register the missing URI and drop a downloaded one)", dl.loc(bad_maps[0]) if bad_maps else dl.loc(),
+               derived=", ".join(ast.unparse(c.func) for c in bad_maps))
+    ctx.require_count("R19.4", 3)
+
     # ---- R19.3 atomic publication
     la = local_assignments(worker.node)
     if len(dcalls) == 1 and len(pcalls) == 1:
